@@ -265,7 +265,13 @@ func init() {
 	vfExtraOps["outage"] = func(w *vfWorld, st vfStep, p *vfPrepared) *vfPrepared {
 		p.env = func() {
 			w.fault("db.primary.down")
-			w.primary.setDown(2500 * time.Millisecond)
+			if st.A == "fast" {
+				// connection refused at once instead of a time-out
+				w.fault("db.primary.refused")
+				w.primary.setDown(time.Millisecond)
+			} else {
+				w.primary.setDown(2500 * time.Millisecond)
+			}
 			w.stalled = true
 			w.offlineDigest = w.dbDigest()
 		}
@@ -322,7 +328,29 @@ func init() {
 		r.Cookies = ck
 		p.call = w.prepare(r)
 		p.intent.Op = "mutate:" + st.A
+		before := ""
+		if st.C == "midheal" && !w.stalled {
+			// the outage ends in the middle of this request: its first calls find the primary unreachable, later ones succeed
+			before = w.dbDigest()
+			w.fault("db.primary.down.partial")
+			if st.N%2 == 0 {
+				w.primary.setDownCalls(1+int(st.N)%3, 2500*time.Millisecond)
+			} else {
+				w.primary.setDownCalls(1+int(st.N)%3, time.Millisecond)
+			}
+		}
 		p.after = func(resp *vfResp) {
+			if before != "" {
+				w.primary.setDownCalls(0, 0)
+				time.Sleep(3 * time.Second)
+				synctest.Wait()
+				w.probe("mutation-across-outage-end")
+				if after := w.dbDigest(); resp.Code >= 400 && after != before {
+					w.violate("C15", "write-by-refused-request", "write-by-refused-request:"+st.A,
+						fmt.Sprintf("%s %s was refused (%d) because the primary was unreachable when it was read, yet the primary's content changed", st.A, st.B, resp.Code))
+				}
+				return
+			}
 			if !w.stalled {
 				return
 			}
@@ -484,7 +512,17 @@ func genStoragePlan(r *rand.Rand, tier string) *vfPlan {
 		if chance(r, 0.5) {
 			add(vfStep{Op: "st_save", User: pick(r, vfStorageUsers), A: "rename", N: int64(r.IntN(100))})
 		}
-		add(vfStep{Op: "outage"})
+		if chance(r, 0.3) {
+			// no standing outage: single requests during which a short outage ends
+			for i := 0; i < 3+r.IntN(5); i++ {
+				u := pick(r, []string{"alice", "bob", "mallory"})
+				a := pick(r, []string{"manage_totp", "manage_u2f", "manage_u2f", "totp_new", "u2f_regreq", "add_user", "delete_user", "new_bootstrap"})
+				add(vfStep{Op: "mutate", User: u, A: a, B: pick(r, []string{"Disable", "Enable", "Delete", "Update"}), N: int64(r.IntN(12)), C: "midheal"})
+			}
+			add(vfStep{Op: "sync"})
+			return p
+		}
+		add(vfStep{Op: "outage", A: pick(r, []string{"", "", "fast"})})
 		n := 3 + r.IntN(6)
 		for i := 0; i < n; i++ {
 			u := pick(r, []string{"alice", "bob", "mallory"})
